@@ -105,6 +105,25 @@ def canon_result(result, flags):
     return out
 
 
+def aliased(results, flags):
+    """tags of the mutable pieces (and 'L' for the yielded list itself) whose object identity is shared between two
+    different yielded results — a caller keeping the results would see one overwrite the other"""
+    tags = [t for t, f in zip('HPBOI', flags) if f]
+    bad = []
+    seen_lists = set()
+    for x in results:
+        if id(x) in seen_lists and 'L' not in bad:
+            bad.append('L')
+        seen_lists.add(id(x))
+    for k, t in enumerate(tags):
+        if t not in 'HP':
+            continue
+        ids = [id(x[k]) for x in results if isinstance(x, (list, tuple)) and len(x) == len(tags) and x[k] is not None]
+        if len(ids) != len(set(ids)):
+            bad.append(t)
+    return bad
+
+
 def make_range(spec):
     """spec: null or {start, end, abs, t0, ts}: values in eighths; ts = pass Timestamp objects instead of floats"""
     from fusion_engine_client.utils.time_range import TimeRange
